@@ -48,7 +48,10 @@ RenderVerdict(e) ==
 \*   first = <<item, row inside the item>> seen on the top line of the view (<<0, 0>>: not identified, <<-1, -1>>: the lines
 \*   shown are no run of consecutive rows of the items).  The position the clauses speak about is TLC's own: the rows above
 \*   that line, from the item heights of the model (RowsAbove).
-LbExact(e) == Len(e.items) <= 3 * e.h          \* otherwise the bar shows item positions, not rows
+\*   hint = the length the list walker reports: its real length when it is sized, else its estimate (__length_hint__), which may
+\*   be lower than Len(e.items): past it the first visible item exceeds the estimated maximum; the bar's parts are still
+\*   non-negative and sum to the view height, and render never raises
+LbExact(e) == e.hint <= 3 * e.h          \* otherwise the bar shows item positions, not rows
 LbSeen(e) == e.first[1] > 0
 LbPos(e) == IF LbSeen(e) THEN RowsAbove(e.items, e.cw, e.first) ELSE e.p
 LbCfg(e) == <<e.items, e.cw, e.h>>
